@@ -12,7 +12,23 @@ func judgeC06(role string, steps []string, w *World, res *MonitorResult) {
 	pendingErr := false
 	lastErr := "-"
 	var trail []string
-	for _, o := range w.obs {
+	// the scenario step during which each observation was made (the "step" observation follows its effects)
+	stepOf := make([]string, len(w.obs))
+	cur := "end"
+	for i := len(w.obs) - 1; i >= 0; i-- {
+		if w.obs[i].Kind == "step" {
+			f := strings.Fields(w.obs[i].A["s"])
+			cur = "?"
+			if len(f) > 0 {
+				cur = f[0]
+				if len(f) > 1 && (f[0] == "confirm" || f[0] == "blocks" || f[0] == "coop" || f[0] == "cancel") {
+					cur += "-" + f[1]
+				}
+			}
+		}
+		stepOf[i] = cur
+	}
+	for oi, o := range w.obs {
 		switch o.Kind {
 		case "crash":
 			if o.A["in"] == "pay" {
@@ -51,9 +67,16 @@ func judgeC06(role string, steps []string, w *World, res *MonitorResult) {
 				// the reason the node gave up is part of the signature: a new reason is a new violation
 				sig := fmt.Sprintf("C06/%s/reveal-with-payment/%s/%s", role, cause, lastErr)
 				if cause == "crash-in-pay" {
-					// the payment is unknown to the record after such a crash: whatever later makes the
-					// taker give up (timeout, window, watcher error, peer cancel) reveals the key
+					// the payment is unknown to the record after such a crash: what later makes the taker give up
+					// (timeout, window, watcher error, peer cancel) reveals the key.  That reason is part of the
+					// signature: a NEW reason to give up after such a crash is a new violation.
 					sig = fmt.Sprintf("C06/%s/reveal-with-payment/%s", role, cause)
+					// ... but a restart ALONE must not be such a reason: in a run that consists of the honest steps, one
+					// crash and the restart (no fault, no message, no block in between) nothing gives the taker cause
+					// to give up; the payment "started before a crash or restart" is still out
+					if stepOf[oi] == "restart" && plainCrashRun(steps) {
+						sig = fmt.Sprintf("C06/%s/reveal-with-payment/restart-alone-after-crash-in-pay", role)
+					}
 				}
 				res.addFinding(sig,
 					fmt.Sprintf("%s sent coop_close (key revealed) while its claim payment is %s", role, o.A["pay"]),
@@ -95,6 +118,22 @@ func judgeC06(role string, steps []string, w *World, res *MonitorResult) {
 	}
 }
 
+// plainCrashRun: the scenario is an honest run with crash / restart / confirm steps only
+func plainCrashRun(steps []string) bool {
+	for _, st := range steps {
+		f := strings.Fields(st)
+		switch f[0] {
+		case "new", "agree", "txmsg", "confirm", "crash", "restart":
+			if len(f) > 1 && f[0] == "confirm" {
+				return false
+			}
+		default:
+			return false
+		}
+	}
+	return true
+}
+
 var c06Known = [][2]string{
 	{"outSender", "new outSender btc;agree;txmsg;payout pending;confirm"},
 	{"inReceiver", "new inReceiver lbtc;txmsg;payout pending;confirm"},
@@ -111,6 +150,14 @@ func init() {
 			all = append(all, scn{role: k[0], steps: strings.Split(k[1], ";")})
 		}
 		all = append(all, sweepScenarios([]string{"outSender", "inReceiver"})...)
+		// a crash at every effect of the confirmation handling (the claim payment is one of them), then nothing but
+		// the restart
+		for _, chain := range []string{"btc", "lbtc"} {
+			for k := 1; k <= 9; k++ {
+				all = append(all, scn{role: "outSender", steps: []string{"new outSender " + chain, "agree", "txmsg", fmt.Sprintf("crash %d", k), "confirm", "restart"}})
+				all = append(all, scn{role: "inReceiver", steps: []string{"new inReceiver " + chain, "txmsg", fmt.Sprintf("crash %d", k), "confirm", "restart"}})
+			}
+		}
 		// the wallet fails to build the preimage claim once / twice after the payment went out
 		for _, chain := range []string{"btc", "lbtc"} {
 			for _, k := range []int{1, 2} {
